@@ -12,6 +12,10 @@ def hx(x): return float(x).hex()
 
 def build(c, ascending=None, fch1=None):
     asc = c["ascending"] if ascending is None else ascending
+    if c.get("flag_kind") == "numpy":
+        asc = np.bool_(asc)             # what `foff > 0` on a numpy header value gives
+    elif c.get("flag_kind") == "int":
+        asc = int(asc)
     f1 = fh(c["fch1"]) if fch1 is None else fch1
     r = c["route"]
     F, T = c["F"], c["T"]
